@@ -63,6 +63,7 @@ def concretise(s):
         "client": s["client"],
         "server": {"host": text_of(s["server"]["host"]), "port": s["server"]["port"]},
         "protocol": s["protocol"],
+        "fault": s.get("fault", "none"),
     }
 
 
@@ -164,8 +165,24 @@ def run(prop, tier):
         raise vlib.ToolError("TLC reports %s on %s (specification error):\n%s" % (mc.violated, cfg, mc.output[-3000:]))
     # TLC's workers print in no fixed order: sort for stable line numbers
     scripts = sorted(mc.marked["REPLAY"], key=lambda b: json.dumps(b, sort_keys=True))
+    # one adapter instance serves all exchanges (as in the application): the sorted order puts the refused replies first, so every exchange
+    # is run a second time in the opposite order -- a refused reply then also comes AFTER well-formed ones (each exchange is judged alone)
+    scripts = scripts + scripts[::-1]
+    # ... and a third time with a service that is being restarted: its first answer in each exchange is the status UNAVAILABLE
+    scripts = scripts + [dict(x, fault="unavailable-once") for x in scripts[:len(scripts) // 2] if x["kind"] in ("select", "discover")]
     if not scripts:
         raise vlib.ToolError("TLC exported no exchange from %s" % cfg)
+    # ... and requests of unusual size: 40 candidates that each carry 128 KiB of metadata (5 MiB on the wire; the mock accepts it).  The
+    # service may refuse such a request -- what it gets, if anything, is still the unaltered candidate list
+    gd.STRINGS["v:big"] = "0123456789abcdef" * 8192
+    INV["v:"] = inverse("v:")
+    echo = [x for x in scripts if x["kind"] == "select" and x["reply"]["mode"] == "echo" and x["reply"]["idx"] == 1 and len(x["candidates"]) >= 1 and not x.get("fault")]
+    for base in echo[:2]:
+        big = json.loads(json.dumps(base))
+        c0 = big["candidates"][0]
+        big["candidates"] = [dict(c0, port=20000 + i, meta=[[c0["meta"][0][0] if c0["meta"] else "k:type", "v:big"]]) for i in range(40)]
+        big["fault"] = "big-request"
+        scripts.append(big)
     inp = os.path.join(wd, "scripts.ndjson")
     outp = os.path.join(wd, "obs.ndjson")
     vlib.write_ndjson(inp, [concretise(s) for s in scripts])
@@ -200,7 +217,7 @@ def run(prop, tier):
         if not verdicts:
             continue
         failing_lines.add(i)
-        sig = "%s %s [%s]" % (prop, "+".join(verdicts), describe(s))
+        sig = "%s %s [%s%s]" % (prop, "+".join(verdicts), describe(s), {"unavailable-once": "; first call answered UNAVAILABLE", "big-request": "; 40 candidates with 128 KiB of metadata each"}.get(s.get("fault"), ""))
         rep.violation(sig, {"failing_clauses": verdicts, "abstract_exchange": s, "concrete_script": concretise(s),
                             "observed": {k: v for k, v in o.items() if k != "_kind"}, "seed": seed,
                             "how_to_replay": "bin/check %s %s; exchange on line %d of scripts.ndjson (VERIF_KEEP=1 keeps out/%s-<pid>/)" % (prop, tier, i + 1, prop)})
